@@ -2546,6 +2546,12 @@ class Interp:
     def call_body(self, st, body, args, dty, ret_k, site, callee=None, force=False):
         depth = len(st.frames)
         path = body["path"]
+        stop = self.opts.get("stop_calls")
+        if stop and path in stop:
+            # comparison runs: record what is handed to this function and do not look inside
+            st.notes["stopped"] = st.notes.get("stopped", ()) + ((path, tuple(args)),)
+            rty = dty if dty is not None else body["locals"][0][0]
+            return ret_k(st, self.materialize(st, rty, ("stopped", fresh_id())))
         if self.opts.get("len_sim"):
             r = self.len_sim_call(st, body, args, dty, ret_k, site)
             if r is not None:
